@@ -102,6 +102,17 @@ class FnOb(Ob):
         return super().replay(args)
 
 
+class SmtOb(Ob):
+    """An obligation discharged by a direct SMT query (z3, optionally cvc5 as a
+    second opinion) instead of CrossHair.  ``solve()`` returns a dict with
+    ``status`` in {confirmed (unsat), refuted (sat, with ``args`` = model),
+    inconclusive} plus solver statistics."""
+    kind = "smt"
+
+    def solve(self) -> dict:
+        raise NotImplementedError
+
+
 @dataclass
 class Side:
     """A concrete assertion evaluated in the prologue (not a solver verdict)."""
@@ -354,6 +365,15 @@ def _run_ob(obl: Ob, funcs: set, no_solver=False) -> dict:
     r["funcs"] = sorted(ft.seen)
     if no_solver:
         r.update(status="inconclusive", reason="solver disabled")
+        return r
+    if isinstance(obl, SmtOb):
+        t0 = time.time()
+        res = obl.solve()
+        res.setdefault("wall_s", round(time.time() - t0, 3))
+        res.setdefault("paths", 0)
+        res.setdefault("reached", 1)
+        res.setdefault("message", "")
+        r.update(res)
         return r
     r.update(run_crosshair(obl))
     return r
